@@ -2,7 +2,7 @@
    are released.  Statements only; every proof is [exact <lemma of Proofs/ChanMgr.v>].
 
    The model (Model/ChanMgr.v) is one ChannelManager of bumble/l2cap.py after the repairs
-   D09a-D09e and D07.  Its environment is universally quantified: [reachable m] means m is
+   D09a-D09f and D07.  Its environment is universally quantified: [reachable m] means m is
    the state after ANY finite sequence of events - API calls of the application
    (open LE / enhanced / classic, disconnect, abort, write, grant credits), ANY signalling
    frame received on ANY connection, loss of ANY connection - that satisfies the
